@@ -48,6 +48,7 @@ type world struct {
 	// that it has not been told is gone: resyncIface -> OnIfaceStateChanged then renumbers/renames directly and leaves
 	// stale entries behind in ifaceNameToIndex / ifaceIndexToState; sticky until the next `new`
 	reuseTaint bool
+	v6       bool // IPv6 table (route keys without a priority are filed under priority 1024)
 	ifStale  bool // a link changed without a callback and no full resync has succeeded since: Felix cannot know the interfaces
 	tainted  bool // a route-listing failure was swallowed by a per-interface rescan and no full resync has happened since
 }
@@ -65,14 +66,52 @@ func kindOf(r *netlink.Route) string {
 	return fmt.Sprintf("other:%d:%d:%d", r.Type, r.Scope, r.Flags)
 }
 
-func mkRoute(cidr string, ifindex int, gw string, pr int, kind string) *netlink.Route {
+// A route key is "<cidr>" (priority 0) or "<cidr>@<priority>".
+func parseKey(key string) (string, int) {
+	if i := strings.Index(key, "@"); i >= 0 {
+		p, err := strconv.Atoi(key[i+1:])
+		if err != nil {
+			panic(err)
+		}
+		return key[:i], p
+	}
+	return key, 0
+}
+
+func keyOf(dst string, prio int) string {
+	if prio == 0 {
+		return dst
+	}
+	return fmt.Sprintf("%s@%d", dst, prio)
+}
+
+// norm: the property's own statement of normalizeRouteKey: on an IPv6 table priority 0 means 1024.
+func (w *world) norm(key string) string {
+	c, p := parseKey(key)
+	if w.v6 && p == 0 {
+		p = 1024
+	}
+	return keyOf(c, p)
+}
+
+func mkRoute(key string, ifindex int, gw string, pr int, kind string) *netlink.Route {
+	cidr, prio := parseKey(key)
 	_, dst, err := net.ParseCIDR(cidr)
 	if err != nil {
 		panic(err)
 	}
-	r := &netlink.Route{Family: unix.AF_INET, Table: unix.RT_TABLE_MAIN, Dst: dst, LinkIndex: ifindex, Protocol: netlink.RouteProtocol(pr), Type: unix.RTN_UNICAST}
+	r := &netlink.Route{Family: unix.AF_INET, Table: unix.RT_TABLE_MAIN, Dst: dst, LinkIndex: ifindex, Protocol: netlink.RouteProtocol(pr), Type: unix.RTN_UNICAST,
+		Priority: prio}
+	v6 := strings.Contains(cidr, ":")
+	if v6 {
+		r.Family = unix.AF_INET6
+	}
 	if gw != "-" {
-		r.Gw = net.ParseIP(gw).To4()
+		if v6 {
+			r.Gw = net.ParseIP(gw)
+		} else {
+			r.Gw = net.ParseIP(gw).To4()
+		}
 	}
 	switch kind {
 	case "link":
@@ -99,7 +138,7 @@ func showRoute(r netlink.Route) string {
 func (w *world) kernel() map[string]string {
 	out := map[string]string{}
 	for _, r := range w.dp.RouteKeyToRoute {
-		out[r.Dst.String()] = showRoute(r)
+		out[keyOf(r.Dst.String(), r.Priority)] = showRoute(r)
 	}
 	return out
 }
@@ -149,8 +188,13 @@ func (w *world) showAll() string {
 	return showK(w.kernel()) + " D" + showVR(st.Desired) + " P" + showVR(st.Dataplane) + " R{" + strings.Join(rs, ",") + "} f" + f
 }
 
-func target(cidr, gw, kind string) routetable.Target {
-	t := routetable.Target{RouteKey: routetable.RouteKey{CIDR: ip.MustParseCIDROrIP(cidr)}}
+func routeKey(key string) routetable.RouteKey {
+	c, p := parseKey(key)
+	return routetable.RouteKey{CIDR: ip.MustParseCIDROrIP(c), Priority: p}
+}
+
+func target(key, gw, kind string) routetable.Target {
+	t := routetable.Target{RouteKey: routeKey(key)}
 	if gw != "-" {
 		t.GW = ip.FromString(gw)
 	}
@@ -291,7 +335,12 @@ func exec(w *world, op string) string {
 	case "new":
 		w.dp = mocknetlink.New()
 		w.pol = ownershippol.NewMainTable("vxlan.calico", proto, []string{"cali"}, ws[1] == "1", false)
-		w.tbl = routetable.New(w.pol, 4, 10*time.Second, nil, proto, ws[1] == "1", 0, logrusr.NewSummarizer("verif"), w.dp,
+		w.v6 = len(ws) > 2 && ws[2] == "6"
+		ver := uint8(4)
+		if w.v6 {
+			ver = 6
+		}
+		w.tbl = routetable.New(w.pol, ver, 10*time.Second, nil, proto, ws[1] == "1", 0, logrusr.NewSummarizer("verif"), w.dp,
 			routetable.WithTimeShim(mocktime.New()), routetable.WithConntrackShim(w.dp), routetable.WithNetlinkHandleShim(w.dp.NewMockNetlink))
 		w.ifaces = map[string][2]int{}
 		w.wants = map[int]map[string]map[string]want{}
@@ -325,7 +374,7 @@ func exec(w *world, op string) string {
 			for _, x := range strings.Split(ws[3], ",") {
 				p := strings.Split(x, "~")
 				ts = append(ts, target(p[0], p[1], p[2]))
-				m[p[0]] = want{p[1], p[2]}
+				m[w.norm(p[0])] = want{p[1], p[2]}
 			}
 		}
 		w.tbl.SetRoutes(routetable.RouteClass(cls), ws[2], ts)
@@ -343,13 +392,13 @@ func exec(w *world, op string) string {
 		if w.wants[cls][ws[2]] == nil {
 			w.wants[cls][ws[2]] = map[string]want{}
 		}
-		w.wants[cls][ws[2]][ws[3]] = want{ws[4], ws[5]}
+		w.wants[cls][ws[2]][w.norm(ws[3])] = want{ws[4], ws[5]}
 		return "ok"
 	case "rem":
 		cls := atoi(ws[1])
-		w.tbl.RouteRemove(routetable.RouteClass(cls), ws[2], routetable.RouteKey{CIDR: ip.MustParseCIDROrIP(ws[3])})
+		w.tbl.RouteRemove(routetable.RouteClass(cls), ws[2], routeKey(ws[3]))
 		if w.wants[cls] != nil && w.wants[cls][ws[2]] != nil {
-			delete(w.wants[cls][ws[2]], ws[3])
+			delete(w.wants[cls][ws[2]], w.norm(ws[3]))
 		}
 		return "ok"
 	case "resync":
@@ -414,7 +463,7 @@ func exec(w *world, op string) string {
 		after := w.kernel()
 		// unowned_routes_unchanged: a route Felix does not own, to a destination Felix does not want, is untouched
 		for k, r := range before {
-			c := r.Dst.String()
+			c := keyOf(r.Dst.String(), r.Priority)
 			if _, wanted := exp[c]; wanted || w.ownedByFelix(r) || !viewOK || int(r.Protocol) == proto {
 				// (a route carrying Felix's exclusive protocol is Felix's own even if its interface has since been renumbered)
 				// (with a stale picture Felix deletes by destination what it believes is its own route)
@@ -453,7 +502,7 @@ func exec(w *world, op string) string {
 			// stale_owned_removed
 			if w.fresh && !w.ifStale {
 				for _, r := range w.dp.RouteKeyToRoute {
-					if _, wanted := exp[r.Dst.String()]; !wanted && w.ownedByFelix(r) {
+					if _, wanted := exp[keyOf(r.Dst.String(), r.Priority)]; !wanted && w.ownedByFelix(r) {
 						sig := "stale-owned-route"
 						if w.tainted {
 							sig = "stale-owned-route-after-swallowed-rescan-list-error"
@@ -461,7 +510,7 @@ func exec(w *world, op string) string {
 							sig = "stale-owned-route-after-ifindex-reuse-rescan"
 						}
 						w.h.OracleFail(sig, "after a successful Apply a route Felix owns but does not want is still present",
-							map[string]any{"route": r.Dst.String() + "=" + showRoute(r), "op": op})
+							map[string]any{"route": keyOf(r.Dst.String(), r.Priority) + "=" + showRoute(r), "op": op})
 					}
 				}
 			}
@@ -488,8 +537,56 @@ func genWant(h *rt.H, ifc string) (gw, kind string) {
 	return "-", "link"
 }
 
+// v6 translations of the generator's vocabulary
+var cidr6 = map[string]string{"10.65.0.1/32": "fd00:65::1/128", "10.65.0.2/32": "fd00:65::2/128", "10.65.1.0/26": "fd00:65:1::/64",
+	"10.65.2.0/26": "fd00:65:2::/64", "192.168.7.0/24": "fd00:7::/64", "10.99.0.0/16": "fd00:99::/48", "0.0.0.0/0": "::/0"}
+
+func gw6(gw string) string {
+	if gw == "-" {
+		return gw
+	}
+	p := strings.Split(gw, ".")
+	return "fd00:" + p[0] + "::" + p[3]
+}
+
 func genCase(h *rt.H) []string {
-	ops := []string{"new " + rt.Pick(h, []string{"1", "1", "0"})}
+	v6 := h.Intn(3) == 0
+	newOp := "new " + rt.Pick(h, []string{"1", "1", "0"})
+	if v6 {
+		newOp += " 6"
+	}
+	// key for a TARGET: on an IPv6 table the priority is left out (0 = "use the default", filed under 1024) or given
+	// as 1024 explicitly -- the same route either way; one destination always uses priority 512
+	tkey := func(c string) string {
+		if !v6 {
+			return c
+		}
+		c6 := cidr6[c]
+		if c == "192.168.7.0/24" {
+			return c6 + "@512"
+		}
+		if h.Intn(3) == 0 {
+			return c6 + "@1024"
+		}
+		return c6
+	}
+	// key for a route programmed by somebody else / deleted out of band: the kernel never shows priority 0 on IPv6
+	kkey := func(c string) string {
+		if !v6 {
+			return c
+		}
+		if c == "192.168.7.0/24" {
+			return cidr6[c] + "@512"
+		}
+		return cidr6[c] + "@1024"
+	}
+	gwv := func(gw string) string {
+		if v6 {
+			return gw6(gw)
+		}
+		return gw
+	}
+	ops := []string{newOp}
 	idx := map[string]int{}
 	for _, n := range ifNames {
 		idx[n] = ifIdx[n]
@@ -503,7 +600,7 @@ func genCase(h *rt.H) []string {
 		if h.Intn(3) == 0 {
 			kind = rt.Pick(h, []string{"link", "univ", "vxlan"})
 		}
-		return fmt.Sprintf("kroute %s %d %s %d %s", rt.Pick(h, append(append([]string{}, cidrs...), "10.99.0.0/16", "0.0.0.0/0")), idx[n], gw,
+		return fmt.Sprintf("kroute %s %d %s %d %s", kkey(rt.Pick(h, append(append([]string{}, cidrs...), "10.99.0.0/16", "0.0.0.0/0"))), idx[n], gwv(gw),
 			rt.Pick(h, []int{80, 80, 3, 4, 2, 12}), kind)
 	}
 	for i := 0; i < h.Intn(5); i++ {
@@ -555,7 +652,7 @@ func genCase(h *rt.H) []string {
 				}
 				seen[c] = true
 				gw, kind := genWant(h, ifc)
-				ts = append(ts, c+"~"+gw+"~"+kind)
+				ts = append(ts, tkey(c)+"~"+gwv(gw)+"~"+kind)
 			}
 			s := "-"
 			if len(ts) > 0 {
@@ -565,9 +662,9 @@ func genCase(h *rt.H) []string {
 		case k < 7:
 			ifc := rt.Pick(h, ifNames[:5])
 			gw, kind := genWant(h, ifc)
-			ops = append(ops, fmt.Sprintf("upd %d %s %s %s %s", h.Intn(4), ifc, rt.Pick(h, cidrs), gw, kind))
+			ops = append(ops, fmt.Sprintf("upd %d %s %s %s %s", h.Intn(4), ifc, tkey(rt.Pick(h, cidrs)), gwv(gw), kind))
 		case k < 9:
-			ops = append(ops, fmt.Sprintf("rem %d %s %s", h.Intn(4), rt.Pick(h, ifNames[:5]), rt.Pick(h, cidrs)))
+			ops = append(ops, fmt.Sprintf("rem %d %s %s", h.Intn(4), rt.Pick(h, ifNames[:5]), tkey(rt.Pick(h, cidrs))))
 		case k < 13:
 			ops = append(ops, applyOp(pending <= 1))
 		case k < 17:
@@ -612,7 +709,7 @@ func genCase(h *rt.H) []string {
 		case k < 18:
 			ops = append(ops, kroute())
 		case k < 19:
-			ops = append(ops, "kdel "+rt.Pick(h, cidrs))
+			ops = append(ops, "kdel "+kkey(rt.Pick(h, cidrs)))
 		default:
 			ops = append(ops, "resync")
 		}
@@ -624,7 +721,7 @@ func main() {
 	h := rt.New()
 	defer h.Close()
 	gomega.RegisterFailHandler(func(msg string, _ ...int) { panic("mock expectation failed: " + msg) })
-	h.Rule = "case = ownership mode + interfaces (workload/vxlan/host/foreign, up/down/absent/renumbered) + start routes (Felix-protocol, other protocols, on workload/special/foreign interfaces) + " +
+	h.Rule = "case = IPv4 or IPv6 table (IPv6: target keys with priority 0, explicit 1024 or 512) + ownership mode + interfaces (workload/vxlan/host/foreign, up/down/absent/renumbered) + start routes (Felix-protocol, other protocols, on workload/special/foreign interfaces) + " +
 		"6..23 ops over {SetRoutes, RouteUpdate, RouteRemove for 4 route classes, interface events with and without monitor callbacks (state change, deletion, re-creation with a new index, index re-use/rename), out-of-band route add/delete, QueueResync, Apply with LinkList/RouteList/RouteReplace/RouteDel failures}; " +
 		"non-trivial = an Apply returned an error, or two classes/interfaces competed for one destination"
 	w := &world{h: h}
